@@ -173,15 +173,27 @@ def gen_cases(rng, n_base, per_base):
                                   "mark": [i_mark], "minus": i_minus, "base": i_base, "desc": fd})
             else:
                 d2 = copy.deepcopy(desc)
+                mod = None
+                if kind == "cb_stop" and rng.random() < 0.6:
+                    # the callback strikes while a note of its own track is still sounding: move the site behind a sounding
+                    # note where there is one, and let that note outlast its event
+                    cand = [(f2, i2) for (f2, i2) in sites if i2 >= 1
+                            and desc["tracks"][f2]["stream"]["items"][i2 - 1]["k"] == "note"
+                            and desc["tracks"][f2]["stream"]["items"][i2 - 1].get("note") is not None
+                            and desc["tracks"][f2]["stream"]["items"][i2 - 1].get("active", True)]
+                    if cand:
+                        f, idx = min(cand, key=lambda s_: s_[1])
+                        mod = rng.choice([2, 3, 5])
+                        d2["tracks"][f]["stream"]["items"][idx - 1]["gate"] = [mod, 1]
                 cb = len(d2["callbacks"])
                 d2["callbacks"].append({"raise": "none", "ops": [], "owner": d2["tracks"][f]["chan"]})
                 dur = d2["tracks"][f]["stream"]["items"][idx].get("dur", F(1))
                 d2["tracks"][f]["stream"]["items"][idx] = {"k": "action", "cb": cb, "dur": dur}
-                i_none = plan.add(("cbnone", b, f, idx), d2)
+                i_none = plan.add(("cbnone", b, f, idx, mod), d2)
                 d3 = copy.deepcopy(d2)
                 d3["callbacks"][cb]["raise"] = "exc" if kind == "cb_exc" else "stop"
                 for ignore in (True, False):
-                    i_run = plan.add(("cbfault", b, f, idx, kind, ignore), d3, mode_ignore=ignore)
+                    i_run = plan.add(("cbfault", b, f, idx, kind, ignore, mod), d3, mode_ignore=ignore)
                     cases.append({"kind": kind, "site": "callback", "b": b, "f": [f], "idx": [idx], "cb": cb, "ignore": ignore, "run": i_run,
                                   "none": i_none, "desc": d3})
         # a device fault
@@ -397,6 +409,40 @@ def judge(case, plan, results):
                                     % (tc, t, got[t], want[t])))
                     if desc["tracks"][f]["rwd"] and ids[f] in J[tc][2]:
                         bad.append(("callback-stop", "StopIteration from the callback on tick %d (nothing pending, remove_when_done): the track is still scheduled" % tc))
+                else:
+                    # notes of the track are still sounding when the callback raises StopIteration: the track draws no further
+                    # event, but every sounding note is still released, on the tick on which it is released without the raise
+                    got = proj(J, ch, cb_owner)
+                    want = proj(N, ch, cb_owner)
+                    sounding = {}
+                    for t in range(tc + 1):
+                        for c in want[t]:
+                            if c == ["cb", case["cb"]] and t == tc:
+                                break
+                            if c[0] == "on":
+                                sounding[(c[1], c[3])] = sounding.get((c[1], c[3]), 0) + 1
+                            elif c[0] == "off":
+                                sounding[(c[1], c[2])] = sounding.get((c[1], c[2]), 0) - 1
+                    later_same = any(c[0] == "on" and sounding.get((c[1], c[3]), 0) > 0
+                                     for t in range(tc, len(want)) for c in want[t]
+                                     if not (t == tc and want[tc].index(c) <= want[tc].index(["cb", case["cb"]])))
+                    exp = want[:tc] + [want[tc][:want[tc].index(["cb", case["cb"]]) + 1]]
+                    if later_same:
+                        # without the raise the track goes on to play a sounding pitch again, so the releases of the run
+                        # without the raise cannot be attributed: not judged here (the model comparison still covers it)
+                        case["cbstop_pending"] = None
+                        got = exp = []
+                    for t in range(tc + 1, len(want) if not later_same else 0):
+                        row = []
+                        for c in want[t]:
+                            if c[0] == "off" and sounding.get((c[1], c[2]), 0) > 0:
+                                sounding[(c[1], c[2])] -= 1
+                                row.append(c)
+                        exp.append(row)
+                    if got != exp:
+                        t = next(t for t in range(len(got)) if got[t] != exp[t])
+                        bad.append(("callback-stop", "StopIteration from the callback on tick %d while %d note(s) of the track were sounding: tick %d of the "
+                                    "track is %r, expected %r (no further event, every sounding note released on time)" % (tc, pend, t, got[t], exp[t])))
                 # the others are untouched
                 for k in range(len(chans)):
                     if k != f and proj(J, chans[k], cb_owner) != proj(N, chans[k], cb_owner):
